@@ -69,6 +69,33 @@ def setup():
         version_id = Column(Integer, nullable=False)
         __mapper_args__ = {"version_id_col": version_id, "version_id_generator": lambda v: (v or 0) + 10}
 
+    from sqlalchemy import literal_column
+
+    def server_version():
+        # the database generates the counter ("1" on INSERT, "version_id + 1" on UPDATE); the client never computes it
+        return Column(Integer, nullable=False, server_default="1", onupdate=literal_column("version_id + 1"))
+
+    Base3 = declarative_base()
+
+    class VS(Base3):
+        __tablename__ = "v"
+        id = Column(Integer, primary_key=True)
+        val = Column(Integer)
+        version_id = server_version()
+        __mapper_args__ = {"version_id_col": version_id, "version_id_generator": False}
+
+    Base4 = declarative_base()
+
+    class VSN(Base4):
+        """server-side counter on a table that may not use RETURNING: the unit of work has to SELECT the new version after each UPDATE"""
+        __tablename__ = "v"
+        __table_args__ = {"implicit_returning": False}
+        id = Column(Integer, primary_key=True)
+        val = Column(Integer)
+        version_id = server_version()
+        __mapper_args__ = {"version_id_col": version_id, "version_id_generator": False}
+
+    _m.update(VS=VS, VSN=VSN)
     _m.update(create_engine=create_engine, exc=exc, Session=Session, V=V, V10=V10, orm_exc=orm_exc, QueuePool=QueuePool, event=event)
     _dir[0] = tempfile.mkdtemp(prefix="verif-c44-", dir="/dev/shm" if os.path.isdir("/dev/shm") else None)
     import atexit
@@ -115,7 +142,7 @@ def gen_case(rng, tier):
         sched.extend([s] * len(p))
     rng.shuffle(sched)
     return {"progs": progs, "schedule": sched, "rows": nrows, "expire_on_commit": [rng.random() < 0.5 for _ in range(ns)],
-            "gen": rng.choice(["default", "default", "plus10"])}
+            "gen": rng.choice(["default", "default", "plus10", "server", "server_noret"])}
 
 
 def derive_cases(case, res):
@@ -157,8 +184,8 @@ def _comb(n, k):
 
 def run_case(case):
     create_engine, exc, Session, orm_exc = _m["create_engine"], _m["exc"], _m["Session"], _m["orm_exc"]
-    Cls = _m["V"] if case["gen"] == "default" else _m["V10"]
-    step = 1 if case["gen"] == "default" else 10
+    Cls = {"default": _m["V"], "plus10": _m["V10"], "server": _m["VS"], "server_noret": _m["VSN"]}[case["gen"]]
+    step = 10 if case["gen"] == "plus10" else 1
     path = os.path.join(_dir[0], "v%d.db" % os.getpid())
     for suffix in ("", "-journal"):
         try:
@@ -312,6 +339,12 @@ def run_case(case):
                                         V("version_not_incremented", "row %d after a successful update: database has %s, expected value %s version %s"
                                           % (r2, view, w[1], loaded + step), step=step_i)
                                     mem = objs[s][r2].__dict__.get("version_id")
+                                    if mem is None and not (op == "commit" and case["expire_on_commit"][s]):
+                                        # client-side counters are set in memory, server-side ones are fetched right after the UPDATE
+                                        # (documented); a version that is simply missing would be re-read from the database later -
+                                        # and then no longer identifies the state this session's copy stems from
+                                        V("in_memory_version_missing", "row %d: the object carries no version_id after a successful update "
+                                          "flush (generator %s, expected %s)" % (r2, case["gen"], loaded + step), step=step_i)
                                     if mem is not None and mem != loaded + step:
                                         V("in_memory_version_wrong", "row %d: in-memory version_id %s after flush, database/expected %s"
                                           % (r2, mem, loaded + step), step=step_i)
